@@ -38,6 +38,14 @@ type c19wire struct {
 
 type c19rule struct{ lo, hi int64 }
 
+// c19counter is a CounterIO the harness moves by hand
+type c19counter struct{ rx, tx, mrx, mtx uint64 }
+
+func (c *c19counter) Rx() uint64    { return c.rx }
+func (c *c19counter) Tx() uint64    { return c.tx }
+func (c *c19counter) MsgRx() uint64 { return c.mrx }
+func (c *c19counter) MsgTx() uint64 { return c.mtx }
+
 type c19bucket struct {
 	name  string
 	rules []c19rule
@@ -59,7 +67,8 @@ type c19env struct {
 	fresh map[string]string // result set -> last values line seen since its last change ("" = collected, line unknown)
 	isFr  map[string]bool
 	// outcome statistics
-	nUpd, nRead, nAvg, nLoop, maxN, nFinish int
+	gaveUp                                           bool
+	nUpd, nRead, nAvg, nLoop, maxN, nFinish, nClient int
 }
 
 func c19bits(x float64) string {
@@ -265,7 +274,12 @@ func (e *c19env) count(sname string) int {
 
 // waits until everything sent so far has been applied by the Listen loop
 func (e *c19env) settle() {
-	deadline := time.Now().Add(3 * time.Second)
+	if e.gaveUp {
+		// something sent earlier never arrived where the property wants it: waiting again would
+		// only cost time, the read-outs that follow show what is missing
+		return
+	}
+	deadline := time.Now().Add(2 * time.Second)
 	for time.Now().Before(deadline) {
 		ok := e.stats[e.gname].VerifCount() == e.count(e.gname)
 		for _, b := range e.bk {
@@ -278,6 +292,7 @@ func (e *c19env) settle() {
 		}
 		time.Sleep(30 * time.Microsecond)
 	}
+	e.gaveUp = true
 }
 
 func (e *c19env) sendOn(c int, name string, x float64, host int) error {
@@ -573,6 +588,113 @@ func c19run(res *c19result, mu *sync.Mutex) {
 			}
 			e.nFinish++
 			emit("ok")
+		case tk[1] == "tmeasure" && (len(tk) == 6 || len(tk) == 7):
+			// the package's own client side: a TimeMeasure made by the real constructors records n
+			// times over the real connection. Its values are wall/CPU times, so the harness reads
+			// back what reached the global result set and writes it into the case (arrived=...);
+			// the host the measure was bound to is what the buckets must go by.
+			name := tk[2]
+			host, err1 := strconv.Atoi(tk[3])
+			n, err2 := strconv.Atoi(tk[4])
+			if err1 != nil || err2 != nil || n < 1 || n > 50 || (tk[5] != "fresh" && tk[5] != "reuse") || e.mon == nil || e.nconn == 0 {
+				emit("bad-op")
+				continue
+			}
+			e.settle()
+			gs := e.stats[e.gname]
+			sfx := []string{"_wall", "_system", "_user"}
+			before := make([]int, 3)
+			for j, sf := range sfx {
+				before[j] = len(gs.VerifStored(name + sf))
+			}
+			var tm *monitor.TimeMeasure
+			for j := 0; j < n; j++ {
+				if tm == nil || tk[5] == "fresh" {
+					if host == monitor.InvalidHostIndex {
+						tm = monitor.NewTimeMeasure(name)
+					} else {
+						tm = monitor.NewTimeMeasureWithHost(name, host)
+					}
+				}
+				tm.Record()
+			}
+			want := e.count(e.gname) + 3*n
+			for dl := time.Now().Add(3 * time.Second); time.Now().Before(dl) && gs.VerifCount() < want; {
+				time.Sleep(30 * time.Microsecond)
+			}
+			var lists []string
+			okN := true
+			for j, sf := range sfx {
+				st := gs.VerifStored(name + sf)
+				var got []float64
+				if len(st) >= before[j] {
+					got = st[before[j]:]
+				}
+				okN = okN && len(got) == n
+				var bl []string
+				for _, x := range got {
+					bl = append(bl, c19bits(x))
+					if math.IsNaN(x) || math.IsInf(x, 0) {
+						okN = false
+					}
+				}
+				lists = append(lists, c19join(bl, ","))
+				for _, x := range got {
+					e.recordMon(name+sf, x, host)
+				}
+			}
+			e.settle()
+			mu.Lock()
+			res.ops[i] = strings.Join(tk[:6], " ") + " arrived=" + strings.Join(lists, ";")
+			mu.Unlock()
+			e.nClient++
+			if !okN {
+				fail("lost-or-duplicated", fmt.Sprintf("%d records of time measure %q: the global result set received %v", n, name, lists))
+				emit("lost-or-duplicated")
+			} else {
+				emit("ok")
+			}
+		case tk[1] == "cmeasure" && len(tk) == 5:
+			// a CounterIOMeasure made by the real constructors over a counter the harness moves
+			name := tk[2]
+			host, err := strconv.Atoi(tk[3])
+			var deltas [][4]uint64
+			ok := err == nil && e.mon != nil && e.nconn > 0
+			for _, rec := range strings.Split(tk[4], ";") {
+				p := strings.Split(rec, ".")
+				var d [4]uint64
+				if len(p) != 4 {
+					ok = false
+					break
+				}
+				for j := range p {
+					v, err := strconv.ParseUint(p[j], 10, 32)
+					ok = ok && err == nil
+					d[j] = v
+				}
+				deltas = append(deltas, d)
+			}
+			if !ok {
+				emit("bad-op")
+				continue
+			}
+			cnt := &c19counter{rx: 1000, tx: 2000, mrx: 30, mtx: 40}
+			var cm *monitor.CounterIOMeasure
+			if host == monitor.InvalidHostIndex {
+				cm = monitor.NewCounterIOMeasure(name, cnt)
+			} else {
+				cm = monitor.NewCounterIOMeasureWithHost(name, cnt, host)
+			}
+			for _, d := range deltas {
+				cnt.rx, cnt.tx, cnt.mrx, cnt.mtx = cnt.rx+d[0], cnt.tx+d[1], cnt.mrx+d[2], cnt.mtx+d[3]
+				cm.Record()
+				for j, sf := range []string{"_rx", "_tx", "_msg_rx", "_msg_tx"} {
+					e.recordMon(name+sf, float64(d[j]), host)
+				}
+			}
+			e.settle()
+			e.nClient++
+			emit("ok")
 		case tk[1] == "send" && len(tk) == 6:
 			cn, err1 := strconv.Atoi(tk[2])
 			x, ok := c19parseBits(tk[4])
@@ -793,7 +915,6 @@ func c19run(res *c19result, mu *sync.Mutex) {
 				}
 				sort.Strings(groups)
 				// every printed group is the statistics of one recorded measure, each measure once
-				used := map[string]bool{}
 				if len(tuples) != len(keys) {
 					kind := "string-shape"
 					if _, isB := e.bucketOf(sname); isB {
@@ -801,19 +922,38 @@ func c19run(res *c19result, mu *sync.Mutex) {
 					}
 					fail(kind, fmt.Sprintf("%q prints %d groups, %d measures were recorded for it (%v): %q", sname, len(tuples), len(keys), keys, str))
 				} else {
-					for _, f := range tuples {
-						found := false
-						for _, k := range keys {
-							if used[k] {
-								continue
-							}
+					// a perfect matching between printed groups and recorded measures (String() prints
+					// six decimals, so a group may fit several measures: augmenting paths, not greedy)
+					fits := make([][]int, len(tuples))
+					for gi, f := range tuples {
+						for ki, k := range keys {
 							if c19twoPass(e.want[sname][k]).check(-1, f, 1e-6) == "" {
-								used[k], found = true, true
-								break
+								fits[gi] = append(fits[gi], ki)
 							}
 						}
-						if !found {
-							fail("stats-mismatch", fmt.Sprintf("after %q: printed group %v matches no recorded measure of %q (%v)", op, f, sname, e.want[sname]))
+					}
+					owner := make([]int, len(keys))
+					for ki := range owner {
+						owner[ki] = -1
+					}
+					var try func(gi int, seen []bool) bool
+					try = func(gi int, seen []bool) bool {
+						for _, ki := range fits[gi] {
+							if seen[ki] {
+								continue
+							}
+							seen[ki] = true
+							if owner[ki] < 0 || try(owner[ki], seen) {
+								owner[ki] = gi
+								return true
+							}
+						}
+						return false
+					}
+					for gi, f := range tuples {
+						if !try(gi, make([]bool, len(keys))) {
+							fail("stats-mismatch", fmt.Sprintf("after %q: printed group %v cannot be matched to a recorded measure of %q (%v)", op, f, sname, e.want[sname]))
+							break
 						}
 					}
 				}
@@ -914,7 +1054,7 @@ func c19run(res *c19result, mu *sync.Mutex) {
 		return ">16"
 	}
 	mu.Lock()
-	res.outcome = fmt.Sprintf("sets=%d buckets=%d maxn=%s reads=%s avg=%d loop=%d finish=%d", len(e.stats), nb, bucketN(e.maxN), bucketN(e.nRead), e.nAvg, e.nLoop, e.nFinish)
+	res.outcome = fmt.Sprintf("sets=%d buckets=%d maxn=%s reads=%s avg=%d loop=%d finish=%d client=%s", len(e.stats), nb, bucketN(e.maxN), bucketN(e.nRead), e.nAvg, e.nLoop, e.nFinish, bucketN(e.nClient))
 	mu.Unlock()
 }
 
@@ -1173,6 +1313,26 @@ func c19genAll(c *h.Ctx, yield func(*h.Case)) {
 	g.op("get 1")
 	g.op("values b1")
 	g.op("acc b1 m")
+	yield(g.cs)
+
+	start("corpus-host-bound-time-measure") // seeded change C19r3-B: the first Record of a host-bound time measure
+	g.op("stats g hosts=8,bf=2 -")
+	g.op("stats b0 hosts=8,bf=2 -")
+	g.op("stats b1 hosts=8,bf=2 -")
+	g.op("mon g")
+	g.op("bucket 0 b0 %s", c19hexRules([]string{"3:4"}))
+	g.op("bucket 1 b1 %s", c19hexRules([]string{"4:8"}))
+	g.op("open 1")
+	g.op("tmeasure round 3 2 reuse")
+	g.op("tmeasure round 5 2 fresh")
+	g.op("tmeasure round -1 1 fresh")
+	g.op("cmeasure net 5 10.20.1.2;5.0.1.0")
+	g.op("close")
+	for _, sn := range []string{"g", "b0", "b1"} {
+		g.op("header %s", sn)
+		g.op("values %s", sn)
+		g.accAll(sn, []string{"round_wall", "round_system", "round_user", "net_rx", "net_msg_tx"})
+	}
 	yield(g.cs)
 
 	// ---- read-out sequences on one result set -------------------------------------------------
@@ -1458,12 +1618,74 @@ func c19genAll(c *h.Ctx, yield func(*h.Case)) {
 		yield(g.cs)
 	}
 
+	// ---- measures produced by the package's client-side constructors ---------------------------
+	for i := 0; i < c.Pick(80, 800); i++ {
+		start("client-measures")
+		g.newStats("g")
+		g.op("mon g")
+		nb := 1 + r.Intn(3)
+		var bnames []string
+		for b := 0; b < nb; b++ {
+			bn := fmt.Sprintf("b%d", b)
+			g.newStats(bn)
+			g.op("bucket %d %s %s", b, bn, c19hexRules(g.rules(false)))
+			bnames = append(bnames, bn)
+		}
+		nconn := 1 + r.Intn(3)
+		g.op("open %d", nconn)
+		bases := []string{"round", "setup", "net"}
+		var seen []string
+		for j := 0; j < 2+r.Intn(8); j++ {
+			base := bases[r.Intn(len(bases))]
+			switch r.Intn(5) {
+			case 0, 1, 2:
+				mode := "fresh"
+				if r.Intn(2) == 0 {
+					mode = "reuse"
+				}
+				g.op("tmeasure %s %d %d %s", base, g.host(), 1+r.Intn(3), mode)
+				seen = append(seen, base+"_wall", base+"_system", base+"_user")
+				c.Count("op=tmeasure")
+			case 3:
+				var recs []string
+				for q := 0; q < 1+r.Intn(3); q++ {
+					recs = append(recs, fmt.Sprintf("%d.%d.%d.%d", r.Intn(5000), r.Intn(5000), r.Intn(20), r.Intn(20)))
+				}
+				g.op("cmeasure %s %d %s", base, g.host(), strings.Join(recs, ";"))
+				seen = append(seen, base+"_rx", base+"_tx", base+"_msg_rx", base+"_msg_tx")
+				c.Count("op=cmeasure")
+			default:
+				g.op("send %d %s_wall %s %d", r.Intn(nconn), base, bitsOf(g.value(2)), g.host())
+				seen = append(seen, base+"_wall")
+			}
+			if r.Intn(6) == 0 {
+				g.readout(append([]string{"g"}, bnames...)[r.Intn(nb+1)])
+			}
+		}
+		g.op("close")
+		uniq := map[string]bool{}
+		var names []string
+		for _, n := range seen {
+			if !uniq[n] {
+				uniq[n] = true
+				names = append(names, n)
+			}
+		}
+		for _, sn := range append([]string{"g"}, bnames...) {
+			g.op("header %s", sn)
+			g.op("values %s", sn)
+			g.accAll(sn, names)
+		}
+		yield(g.cs)
+	}
+
 	// ---- lines the model must refuse exactly as the harness does ----------------------------
 	for _, ops := range [][]string{
 		{"c19 values nosuch"}, {"c19 mon nosuch"}, {"c19 stats s hosts=1 -", "c19 stats s hosts=1 -"},
 		{"c19 stats s hosts=1 -", "c19 upd s m zz -1"}, {"c19 stats s hosts=1 -", "c19 upd s m 3ff0000000000000 x"},
 		{"c19 open 2"}, {"c19 close"}, {"c19 frobnicate"}, {"c19 stats s hosts=1 -", "c19 mon s", "c19 send 0 m 3ff0000000000000 1"},
 		{"c19 get 0"}, {"c19 stats s hosts -"}, {"c19 avg a nosuch"}, {"c19 stats s hosts=1 -", "c19 mon s", "c19 finish m 0 3ff0000000000000"},
+		{"c19 stats s hosts=1 -", "c19 mon s", "c19 tmeasure round 1 1 fresh"}, {"c19 stats s hosts=1 -", "c19 mon s", "c19 cmeasure net 1 1.2.3.4"},
 	} {
 		start("refused")
 		g.cs.Ops = ops
